@@ -59,9 +59,12 @@ type c15Group struct {
 
 // c15DataLens: payload lengths per section index. 2 is the shortest payload that has a kind byte;
 // 93 makes cid+data = 129 > 127, i.e. a two-byte length prefix.
+// Set 2 (C15.big): 16349+36 = 16385 needs a three-byte prefix and, like 4100, is larger than the 4096-byte
+// bufio buffer the harness gives the reader (io.ReadFull has to loop over several fills).
 var c15DataLens = [][]int{
 	{2, 93, 5, 3, 92, 2},
 	{91, 2, 2, 94, 3, 7},
+	{16349, 2, 4100, 3, 2, 2},
 }
 
 // c15Image builds the CAR image and the section table.
